@@ -59,6 +59,8 @@ type loopInfo struct {
 	rangeIdx  *ssa.Phi
 	rangeVal  ssa.Value
 	minPos    token.Pos
+	modTargets []modTarget
+	modReady   bool
 }
 
 type edge struct {
@@ -331,23 +333,47 @@ func (e *Eng) fieldPtr(p *PtrV, t types.Type, i int) *PtrV {
 	}
 	switch under(ft).(type) {
 	case *types.Struct:
-		f := e.q.DeclareFun("sub|"+typeName(t)+"|"+fn, []string{sRef}, sRef)
+		f := e.subFun("sub|" + typeName(t) + "|" + fn)
 		return &PtrV{Kind: pStruct, Ref: app(f, p.Ref), Elem: ft, NonNil: true}
 	case *types.Array:
-		f := e.q.DeclareFun("sub|"+typeName(t)+"|"+fn, []string{sRef}, sRef)
+		f := e.subFun("sub|" + typeName(t) + "|" + fn)
 		return &PtrV{Kind: pArr, Ref: app(f, p.Ref), Elem: ft, NonNil: true}
 	}
 	return &PtrV{Kind: pField, Ref: p.Ref, Fam: structFam(t, fn), Elem: ft, NonNil: true}
+}
+
+// subFun declares the reference of an embedded sub-object as a function of its container; the sub-object
+// is as old as its container and never the null reference.
+func (e *Eng) subFun(name string) T {
+	if _, ok := e.q.declared[name]; !ok {
+		f := e.q.DeclareFun(name, []string{sRef}, sRef)
+		b := e.q.DeclareFun("birth", []string{sRef}, sI64)
+		inv := e.q.DeclareFun(name+"^-1", []string{sRef}, sRef)
+		// as old as its container, never null, and distinct containers have distinct sub-objects
+		e.q.Assert(fmt.Sprintf("(forall ((r!s %s)) (! (and (= (%s (%s r!s)) (%s r!s)) (not (= (%s r!s) %s)) (= (%s (%s r!s)) r!s)) :pattern ((%s r!s))))", sRef, b, f, b, f, null, inv, f, f))
+		return f
+	}
+	return sym(name)
+}
+
+func (e *Eng) elemRefFun(name string) T {
+	if _, ok := e.q.declared[name]; !ok {
+		f := e.q.DeclareFun(name, []string{sRef, sI64}, sRef)
+		b := e.q.DeclareFun("birth", []string{sRef}, sI64)
+		e.q.Assert(fmt.Sprintf("(forall ((r!s %s) (i!s %s)) (! (and (= (%s (%s r!s i!s)) (%s r!s)) (not (= (%s r!s i!s) %s))) :pattern ((%s r!s i!s))))", sRef, sI64, b, f, b, f, null, f))
+		return f
+	}
+	return sym(name)
 }
 
 // elemPtr computes &base[idx] for element type et.
 func (e *Eng) elemPtr(base, idx T, et types.Type) *PtrV {
 	switch under(et).(type) {
 	case *types.Struct:
-		f := e.q.DeclareFun("elemref|"+typeName(et), []string{sRef, sI64}, sRef)
+		f := e.elemRefFun("elemref|" + typeName(et))
 		return &PtrV{Kind: pStruct, Ref: app(f, base, idx), Elem: et, NonNil: true}
 	case *types.Array:
-		f := e.q.DeclareFun("elemref|"+typeName(et), []string{sRef, sI64}, sRef)
+		f := e.elemRefFun("elemref|" + typeName(et))
 		return &PtrV{Kind: pArr, Ref: app(f, base, idx), Elem: et, NonNil: true}
 	}
 	return &PtrV{Kind: pElem, Ref: base, Idx: idx, Fam: "E|" + elemKey(et), Elem: et, NonNil: true}
@@ -384,6 +410,29 @@ func (e *Eng) assumeAllocated(fr *Frame, st *State, r T) {
 	e.assume(st, tOr(tEq(r, null), e.allocatedIn(st, r)))
 }
 
+// heapAxiom: every slice / string header stored in memory has sane length fields (heap well-typedness).
+// Asserted for each named version of a "#l", "#c", "#o" component heap, so that contract clauses that
+// read headers under quantifiers can rely on it.
+func (e *Eng) heapAxiom(name string, h T) T {
+	if true {
+		// disabled: universally quantified well-typedness axioms made every query quantified (slow, and
+		// vacuity covers came back "unknown").  Type invariants of values read by contract clauses are
+		// instead assumed at the point of use, outside binders (see evalSpecArgs).
+		return h
+	}
+	sort := e.heapNames[name]
+	bound := func(t T) T { return tAnd(app("bvsle", i64(0), t), app("bvsle", t, i64(maxLen))) }
+	switch sort {
+	case sI64:
+		e.q.Assert(bound(h))
+	case arrSort(sRef, sI64):
+		e.q.Assert(fmt.Sprintf("(forall ((r!h %s)) (! %s :pattern ((select %s r!h))))", sRef, bound(app("select", h, "r!h")), h))
+	case arrSort(sRef, arrSort(sI64, sI64)):
+		e.q.Assert(fmt.Sprintf("(forall ((r!h %s) (i!h %s)) (! %s :pattern ((select (select %s r!h) i!h))))", sRef, sI64, bound(tSel(h, "r!h", "i!h")), h))
+	}
+	return h
+}
+
 // havocAll forgets everything about memory (call of an unknown function).
 func (e *Eng) havocAll(st *State, why string) {
 	names := e.sortedHeapNames()
@@ -391,7 +440,7 @@ func (e *Eng) havocAll(st *State, why string) {
 		if n == "Alloc" || strings.HasPrefix(n, "G|holds_") || e.w.stableGlobal(n) {
 			continue
 		}
-		st.heap[n] = e.fresh("hv|"+n, e.heapNames[n])
+		st.heap[n] = e.heapAxiom(n, e.fresh("hv|"+n, e.heapNames[n]))
 		e.modified[n] = true
 	}
 }
